@@ -37,21 +37,22 @@ type Resp struct {
 
 // Case is one call of one client method against a scripted server.
 type Case struct {
-	Method    string
-	KeyKind   string
-	KeyIdx    int
-	Temporal  bool            // AddChain / AddPreChain / GetAcceptedRoots through a one-shard TemporalLogClient
-	Chain     world.ChainSpec // the submission
-	Other     world.ChainSpec // "another certificate"
-	Entries   []EntrySpec     // get-entries / get-entry-and-proof payload
-	Timestamp uint64
-	TreeSize  uint64
-	Seed      uint32 // root hash and proof nodes derive from it
-	Ext       []byte // SCT extensions
-	NHashes   int
-	A, B      uint64 // call arguments
-	Script    []Resp // served in order; the last one repeats for ever
-	DeadlineS int    // caller deadline (virtual seconds) for the retrying methods
+	Method     string
+	KeyKind    string
+	KeyIdx     int
+	Temporal   bool            // AddChain / AddPreChain / GetAcceptedRoots through a one-shard TemporalLogClient
+	EmptyChain bool            // the caller submits no certificate at all
+	Chain      world.ChainSpec // the submission
+	Other      world.ChainSpec // "another certificate"
+	Entries    []EntrySpec     // get-entries / get-entry-and-proof payload
+	Timestamp  uint64
+	TreeSize   uint64
+	Seed       uint32 // root hash and proof nodes derive from it
+	Ext        []byte // SCT extensions
+	NHashes    int
+	A, B       uint64 // call arguments
+	Script     []Resp // served in order; the last one repeats for ever
+	DeadlineS  int    // caller deadline (virtual seconds) for the retrying methods
 }
 
 var methods = []string{"GetSTH", "AddChain", "AddPreChain", "GetSTHConsistency", "GetProofByHash", "GetRawEntries", "GetEntries", "GetEntryAndProof", "GetAcceptedRoots"}
@@ -466,16 +467,25 @@ func (s *scene) fields(muts []Mut) []jf {
 			case "size":
 				size = tweakU64(size, m.N)
 			case "root-flip":
-				sroot = clone(sroot)
-				sroot[(m.N/8)%len(sroot)] ^= 1 << (m.N % 8)
+				if len(sroot) > 0 {
+					sroot = clone(sroot)
+					sroot[(m.N/8)%len(sroot)] ^= 1 << (m.N % 8)
+				}
 			case "root-len":
-				switch m.N % 3 {
+				switch m.N % 5 {
 				case 0:
 					sroot = nil
 				case 1:
 					sroot = clone(root[:31])
 				case 2:
 					sroot = append(clone(root[:]), byte(m.M))
+				case 3:
+					// a short hash whose zero-padded form is what the log signed
+					root[31] = 0
+					sroot = clone(root[:31])
+				case 4:
+					root = [32]byte{}
+					sroot = nil
 				}
 			}
 		}
@@ -524,6 +534,10 @@ func (s *scene) fields(muts []Mut) []jf {
 				}
 			case "sct-version":
 				ver = []string{"1", "2", "255", "256", "-1", "4294967296"}[m.N%6]
+				if m.M%2 == 0 && m.N%6 < 3 {
+					// the log really signed that version octet
+					p.verChange, p.signVer = true, []uint8{1, 2, 255}[m.N%6]
+				}
 			}
 		}
 		in, err := rfc6962.SCTSignatureInput(0, c.Timestamp, entry, c.Ext)
